@@ -199,6 +199,19 @@ PROPS["C19"] = dict(
     level_note="trusted: virtual process layer and signalling bookkeeping in harness/t_popen.c, the helper program harness/popen_child.c, virtual kernel; ASan/UBSan.",
     technique="property-based testing: seeded generated child behaviours and close timings under a virtual clock and virtual process layer; invariant over the kill history; choice-sequence shrinking",
     design_ref="DESIGN.md section 3 (C19)")
+HYG_LABELS = ["thread_exit_without_deinit", "thread_with_deinit", "poll_arrays_method", "more_than_16384_timers", "pump_buffers_cached", "work_pool", "iv_event",
+              "kernel_timer_created", "inotify_instance", "signal_interest", "method_epoll_timerfd", "method_epoll", "method_ppoll", "method_poll",
+              "failed_register_try", "main_thread_cycles", "pump_splice_cached", "raw_event"]
+PROPS["C18"] = dict(
+    level="exploration", labels=HYG_LABELS, engine="hyg",
+    campaigns=[("hyg", [], 6000, 120000), ("hyg", ["big=1"], 400, 8000), ("loop", ["profile=all"], 40000, 800000), ("mt", ["profile=all"], 10000, 200000),
+               ("pump", [], 10000, 200000), ("ino", [], 3000, 60000)],
+    rule="cases = (a) hygiene sequences: one generated program (1-3 registered sockets incl. register_try and a failing register_try, 1..17000 timers due at once, a far timer with a descriptor that stays readable so that the kernel-timer descriptor gets created, task, iv_event, raw event, this-thread signal interest, inotify instance, work pool with 1-4 items, two pump sessions of which one is destroyed with data buffered) replayed in 4-8 init->use->deinit cycles, in the main thread and in short-lived threads that call iv_deinit or simply exit, on each poll method; after the two warm-up cycles the allocated byte count (__sanitizer_get_current_allocated_bytes), the set of open descriptors (/proc/self/fd) and the thread count must equal their warm-up values after EVERY cycle, LeakSanitizer must find nothing, registered descriptors must be O_NONBLOCK and FD_CLOEXEC; (b) the programs of the loop / mt / pump / inotify targets with every object individually heap-allocated and freed or poisoned at the earliest documented moment, under ASan+UBSan (any report = violation); non-trivial (a) = sequence with a thread that exits without iv_deinit and either the poll/ppoll arrays, a work pool, pump buffers or the kernel timer; distinct = hash(config, cycle kinds, actions)",
+    assumptions=["allocated-bytes equality is exact because every cycle replays the same program; the first two cycles absorb one-time allocations (TLS keys, libc caches)"],
+    level_text="exploration of init/use/deinit and thread-churn sequences with exact resource accounting, plus sanitizer-instrumented runs of all other generated programs",
+    level_note="trusted: ASan/UBSan/LSan runtimes, /proc/self/fd and /proc/self/task as ground truth for descriptors and threads, the harness programs.",
+    technique="property-based testing under AddressSanitizer/UBSan/LeakSanitizer: seeded generated programs replayed over init/deinit cycles with an exact resource-equality oracle; choice-sequence shrinking",
+    design_ref="DESIGN.md section 3 (C18)")
 
 ENGINES = [
     dict(name="vfz", path="harness/vfz.c", serves_properties=["C01", "C02", "C03", "C04", "C06", "C07"],
@@ -217,6 +230,7 @@ ENGINES.append(dict(name="sig", path="harness/t_sig.c", serves_properties=["C10"
 ENGINES.append(dict(name="wait", path="harness/t_wait.c", serves_properties=["C11"], kind_free_text="iv_wait scenarios with virtual children (fork/wait4/kill interposed) on engine B"))
 ENGINES.append(dict(name="ino", path="harness/t_ino.c", serves_properties=["C20"], kind_free_text="iv_inotify on real inotify instances, reference = the stream read() returned to the library"))
 ENGINES.append(dict(name="popen", path="harness/t_popen.c", serves_properties=["C19"], kind_free_text="iv_popen with virtual children under virtual time, plus a real exec'ed helper"))
+ENGINES.append(dict(name="hyg", path="harness/t_hyg.c", serves_properties=["C18"], kind_free_text="init/use/deinit cycles with exact memory, descriptor and thread accounting"))
 NOT_APPLICABLE = {}
 
 for _pid, _txt in {
